@@ -260,37 +260,86 @@ Proof.
   pose proof (c_lock2 s IC c1 H1) as E1. pose proof (c_lock2 s IC c2 H2) as E2. congruence.
 Qed.
 
-(** every Close call can always move: the lock holder is never blocked (the timeout bounds
-    its wait), a caller that wants the lock waits only for a holder that can move *)
+(** every Close call can always move - also with RunHandlers calls competing for handlersLock:
+    the holder of closedLock waits at most for handlersLock, whose holder (a RunHandlers call,
+    which takes no other lock) can move; a caller that wants closedLock waits only for a holder
+    for which this is true; the timeout bounds the wait for the handlers.  No lock-order cycle. *)
 Definition closer_can_move (s : state) (c : cid) : Prop :=
   step s (LClose c) <> None \/ step s (LTimeout c) <> None.
+Definition lock_user_can_move (s : state) : Prop :=
+  (exists c, closer_can_move s c) \/ (exists r, step s (LRh r) <> None).
 
-Lemma holder_moves s c : holds (cp s c) = true -> closer_can_move s c.
+(** in the code as it is (not the [rh_isclosed] variant) no RunHandlers call ever asks for closedLock *)
+Definition rh_plain (s : state) : Prop :=
+  rh_isclosed s = false -> forall r, rp s r <> RHCWant /\ rp s r <> RHChecked.
+Lemma rh_plain_step s l s' : rh_plain s -> step s l = Some s' -> rh_plain s'.
+Proof.
+  intros P H. unfold rh_plain in *. destruct l; step_cases H; simpl; intros Hf r0; try (apply P; assumption).
+  all: upd_all; try (apply P; assumption); try (split; discriminate).
+  all: try (exfalso; congruence).
+  all: try (exfalso; destruct (P Hf r) as [P1 P2]; congruence).
+  all: apply P; reflexivity.
+Qed.
+Lemma rh_plain_exec s ls : rh_plain s -> rh_plain (exec s ls).
+Proof.
+  revert s. induction ls as [|l ls IH]; intros s P; simpl; [assumption|].
+  destruct (step s l) eqn:E; [apply IH; eapply rh_plain_step; eassumption | apply IH; assumption].
+Qed.
+Lemma rh_plain_init_u n u hon f5 f6 f12 f16 : rh_plain (init_u n u hon f5 f6 f12 f16).
+Proof. intros _ r. simpl. split; discriminate. Qed.
+
+Lemma holderH_moves s c : holdsH (cp s c) = true -> closer_can_move s c.
 Proof.
   intros H. unfold closer_can_move, step.
   destruct (cp s c) eqn:E; simpl in H; try discriminate.
   all: first [ left; destruct (closed s); [|destruct (fix16 s)]; discriminate | right; discriminate ].
 Qed.
 
+Lemma holder_moves s c : InvC s -> rh_plain s -> rh_isclosed s = false -> holds (cp s c) = true -> lock_user_can_move s.
+Proof.
+  intros IC P Hf H.
+  destruct (holdsH (cp s c)) eqn:EH; [left; exists c; apply holderH_moves; assumption|].
+  destruct (cp s c) eqn:E; simpl in H, EH; try discriminate.
+  (* CHWant: waits for handlersLock *)
+  destruct (handlersLock s) as [[c'|r]|] eqn:EL.
+  - pose proof (c_hl1 s IC c' EL) as Hh. left. exists c'. apply holderH_moves. assumption.
+  - pose proof (c_hl3 s IC r EL) as Hr. right. exists r. unfold step.
+    destruct (P Hf r) as [P1 P2].
+    destruct (rp s r) eqn:Er; simpl in Hr; try discriminate; try congruence.
+    rewrite Hf. discriminate.
+  - left. exists c. left. unfold step. rewrite E, EL. discriminate.
+Qed.
+
+Lemma rh_isclosed_step s l s' : step s l = Some s' -> rh_isclosed s' = rh_isclosed s.
+Proof. intros H. destruct l; step_cases H; simpl; auto. Qed.
+Lemma rh_isclosed_exec s ls : rh_isclosed (exec s ls) = rh_isclosed s.
+Proof.
+  revert s. induction ls as [|l ls IH]; intros s; simpl; [reflexivity|].
+  destruct (step s l) as [s0|] eqn:E; [|apply IH]. rewrite IH. eapply rh_isclosed_step; eassumption.
+Qed.
+
 Theorem close_never_stuck n hon f5 f6 f12 sched c :
   let s := exec (init n hon f5 f6 f12) sched in
-  cp s c <> CNone -> (forall r, cp s c <> CRet r) -> exists c', closer_can_move s c'.
+  cp s c <> CNone -> (forall r, cp s c <> CRet r) -> lock_user_can_move s.
 Proof.
   intros s Hn Hr. pose proof (i_c s (Inv_reach n hon f5 f6 f12 sched)) as IC.
+  assert (P : rh_plain s) by (apply rh_plain_exec, rh_plain_init_u).
+  assert (Hf : rh_isclosed s = false) by (unfold s; rewrite rh_isclosed_exec; reflexivity).
   destruct (cp s c) eqn:E; try congruence.
   - destruct (closedLock s) as [c'|] eqn:EL.
-    + exists c'. apply holder_moves. apply (c_lock1 s IC c' EL).
-    + exists c. left. unfold step. rewrite E, EL. discriminate.
-  - exists c. apply holder_moves. rewrite E. reflexivity.
-  - exists c. apply holder_moves. rewrite E. reflexivity.
-  - exists c. apply holder_moves. rewrite E. reflexivity.
-  - exists c. apply holder_moves. rewrite E. reflexivity.
-  - exists c. apply holder_moves. rewrite E. reflexivity.
+    + apply (holder_moves s c' IC P Hf). apply (c_lock1 s IC c' EL).
+    + left. exists c. left. unfold step. rewrite E, EL. discriminate.
+  - apply (holder_moves s c IC P Hf). rewrite E. reflexivity.
+  - apply (holder_moves s c IC P Hf). rewrite E. reflexivity.
+  - apply (holder_moves s c IC P Hf). rewrite E. reflexivity.
+  - apply (holder_moves s c IC P Hf). rewrite E. reflexivity.
+  - apply (holder_moves s c IC P Hf). rewrite E. reflexivity.
+  - apply (holder_moves s c IC P Hf). rewrite E. reflexivity.
 Qed.
 
 (** a Close call takes at most six steps of its own; nobody else moves its program counter *)
 Definition crank (p : cpc) : nat :=
-  match p with CNone => 7 | CWant => 6 | CLocked => 5 | CSignal => 4 | CWait => 3 | CClosedCh _ => 2 | CUnlock _ => 1 | CRet _ => 0 end.
+  match p with CNone => 8 | CWant => 7 | CHWant => 6 | CLocked => 5 | CSignal => 4 | CWait => 3 | CClosedCh _ => 2 | CUnlock _ => 1 | CRet _ => 0 end.
 Definition own_label (l : label) (c : cid) : bool :=
   match l with LCall c' | LClose c' | LTimeout c' | LWaitDone c' => Nat.eqb c c' | _ => false end.
 
